@@ -1,6 +1,8 @@
 #!/bin/bash
 # usage: run_check.sh <property id> [quick|thorough] [extra htcheck flags]
 # Builds the checker if needed (offline) and decides the property on /repo's current working tree.
+# quick: linux/amd64.  thorough: linux/amd64 + linux/arm64 + linux/s390x, then the sensitivity self-test
+# (seeded regressions and mutants on scratch copies of the working tree, see tools/selftest.py).
 set -u
 cd "$(dirname "$0")"
 export GOFLAGS=-mod=mod GOPROXY=off GOSUMDB=off GOTOOLCHAIN=local
@@ -9,4 +11,10 @@ id=$1; tier=${2:-${VERIF_TIER:-quick}}; shift; [ $# -gt 0 ] && shift
 if [ ! -x bin/htcheck ] || [ -n "$(find checker -name '*.go' -newer bin/htcheck 2>/dev/null | head -1)" ]; then
   (cd checker && go build -o ../bin/htcheck ./cmd/htcheck) || { echo "VIOLATION property=$id replay=/verif/checker (checker does not build)"; exit 1; }
 fi
-exec ./bin/htcheck -p "$id" -tier "$tier" -dir /repo -verif "$(pwd)" "$@"
+./bin/htcheck -p "$id" -tier "$tier" -dir /repo -verif "$(pwd)" "$@"
+code=$?
+if [ "$tier" = thorough ] && [ $# -eq 0 ]; then
+  # sensitivity self-test on scratch copies (never changes the verdict; recorded in the evidence file)
+  python3 tools/selftest.py "$id" || true
+fi
+exit $code
